@@ -8,6 +8,11 @@ mod s_c15;
 mod s_rd;
 mod s_wr;
 mod s_tx;
+mod s_pa;
+mod alloc;
+
+#[global_allocator]
+static GLOBAL: alloc::Counting = alloc::Counting;
 
 fn dispatch(line: &str) -> String {
     let toks: Vec<&str> = line.split(' ').filter(|t| !t.is_empty()).collect();
@@ -18,6 +23,12 @@ fn dispatch(line: &str) -> String {
         Some("wr") => s_wr::run(&toks[1..]),
         Some("tx") => s_tx::run(&toks[1..]),
         Some("o_tx") => s_tx::oracle(&toks[1..]),
+        Some("pa") => s_pa::run(&toks[1..]),
+        Some("o_c01") => s_pa::oracle_c01(&toks[1..]),
+        Some("o_c04") => s_pa::oracle_c04(&toks[1..]),
+        Some("o_c05") => s_pa::oracle_c05(&toks[1..]),
+        Some("o_exp") => s_pa::oracle_expect(&toks[1..]),
+        Some("o_c09") => s_pa::oracle_c09(&toks[1..]),
         Some("o_wr") => s_wr::oracle(&toks[1..]),
         Some(s) => format!("HARNESS-ERROR unknown stream {s}"),
         None => String::new(),
